@@ -891,6 +891,10 @@ fn sx_stmts(stmts: &[syn::Stmt]) -> String {
             }
             // a `use` inside a body only brings names into scope
             syn::Stmt::Item(syn::Item::Use(u)) => o.push_str(&format!("(use {})", q(&ts(&u.tree)))),
+            // a constant declared inside the body: a binding of that name
+            syn::Stmt::Item(syn::Item::Const(c)) => {
+                o.push_str(&format!("(letconst {} {})", q(&c.ident.to_string()), sx_expr(&c.expr)));
+            }
             syn::Stmt::Item(i) => o.push_str(&format!("(unsupported {})", q(&format!("item {}", ts(i))))),
         }
     }
